@@ -29,18 +29,29 @@ fn id20(r: &mut Rng) -> [u8; 20] {
 
 /// messages: (source, tid offset relative to the genuine tid); offset 0 = the right transaction id
 pub fn spoof_case(r: &mut Rng, msgs: &[(Src, i64)], errors: bool) -> String {
+    spoof_case_x(r, msgs, errors, false)
+}
+
+/// `late`: the messages arrive after the victim request's timeout has passed, while the lookup is kept alive by a
+/// younger request (to a node that a slow peer lists just before the timeout)
+pub fn spoof_case_x(r: &mut Rng, msgs: &[(Src, i64)], errors: bool, late: bool) -> String {
     let mut s = Scn::new(r, 3, false, Default::default());
     let target = Id::from(id20(r));
     let (tx, _rx) = flume::unbounded::<Box<[u8]>>();
     s.node.actor.verif_get(GetRequestSpecific::GetValue(GetValueRequestArguments { target, seq: None, salt: None }), ResponseSender::Immutable(tx));
     // collect the lookup's requests; the one to peer 0 is the victim, the others are answered honestly
     let mut victim: Option<(SocketAddrV4, u32)> = None;
+    let mut slow: Option<(SocketAddrV4, u32)> = None;
     for _ in 0..6 {
         let mut v = None;
+        let mut sl = None;
         s.step(&mut |s, inc| {
             let is_get = matches!(as_request(&inc.msg).map(|q| &q.request_type), Some(RequestTypeSpecific::GetValue(_)));
             if is_get && inc.peer == 0 {
                 v = Some((inc.from, inc.msg.transaction_id));
+                Reply::Silent
+            } else if is_get && late && inc.peer == 1 {
+                sl = Some((inc.from, inc.msg.transaction_id));
                 Reply::Silent
             } else if is_get {
                 // token-bearing answer without further nodes
@@ -56,8 +67,30 @@ pub fn spoof_case(r: &mut Rng, msgs: &[(Src, i64)], errors: bool) -> String {
         if v.is_some() {
             victim = v;
         }
-        if victim.is_some() {
+        if sl.is_some() {
+            slow = sl;
+        }
+        if victim.is_some() && (!late || slow.is_some()) {
             break;
+        }
+    }
+    let keeper = Peer::new(peer_id(90, r));
+    if late {
+        let timeout_ms = (s.snap().inflight.3 / 1000) as u64;
+        if let Some((from, tid1)) = slow {
+            // just before the timeout the slow peer answers and lists the keeper, which is asked and never answers
+            s.advance(timeout_ms - 100);
+            s.peers[1].send(
+                from,
+                tid1,
+                MessageType::Response(ResponseSpecific::NoValues(NoValuesResponseArguments { responder_id: Id::from(s.peers[1].id), token: vec![1, 2, 3, 4].into(), nodes: Some(vec![keeper.node()].into()) })),
+                false,
+                None,
+            );
+            s.node.tick();
+            s.node.tick();
+            // now the victim request is older than the timeout; the keeper's is 200 ms old
+            s.advance(200);
         }
     }
     let (node_addr, tid) = match victim {
@@ -158,6 +191,10 @@ pub fn generate(seed: u64, scale: usize) -> Cases {
         }
     }
     cases.push("duplicate_genuine", spoof_case(&mut r, &[(Src::Right, 0), (Src::Right, 0), (Src::Right, 0)], false));
+    // the genuine reply arrives after its request's timeout (the lookup still runs), several times over
+    cases.push("late_duplicate_genuine", spoof_case_x(&mut r, &[(Src::Right, 0), (Src::Right, 0), (Src::Right, 0)], false, true));
+    cases.push("late_spoofed_then_genuine", spoof_case_x(&mut r, &[(Src::WrongPort, 0), (Src::Right, 0), (Src::WrongIp, 0), (Src::Right, 0)], false, true));
+    cases.push("late_error_replayed", spoof_case_x(&mut r, &[(Src::WrongPort, 0), (Src::Right, 0), (Src::Right, 0)], true, true));
     cases.push("error_genuine", spoof_case(&mut r, &[(Src::Right, 0)], true));
     cases.push("error_replayed", spoof_case(&mut r, &[(Src::WrongPort, 0), (Src::WrongPort, 0), (Src::Right, 0), (Src::Right, 0), (Src::WrongIp, 0)], true));
     for _ in 0..(10 * scale) {
